@@ -23,6 +23,8 @@ def run(ctx):
         "netip.ParseAddr(host) (the 'pure IP host is not cached' guard) is an input bit of the insert op, not modelled",
         "testing/synctest virtual clock = time.Now() seen by the controller",
         "names are ASCII (strings.ToLower = ASCII lower-casing); TTLs fit in 32 bits (no int64 overflow in now+ttl*1e9)",
+        "in-flight refreshes are the ghost latchStep: a clean-up on key k is taken to end the refresh of the entry then stored under k",
+        "key_injective assumes question names without the '|' character",
     ]
     ctx.prove(["DaeVerif.C08.Props"], ["DaeVerif.C08.Props"], ["DaeVerif/C08/*.lean"], extra_targets=["c08drv"])
     ctx.required_theorems(REQUIRED)
